@@ -174,11 +174,29 @@ func rootFresh(a Addr) bool {
 	return false
 }
 
+// rootRef: the reference term of the object an address lies in ("" when not an object address).
+func rootRef(a Addr) string {
+	switch x := a.(type) {
+	case ObjAddr:
+		return x.Ref
+	case FieldOf:
+		return rootRef(x.Base)
+	case IndexOf:
+		return rootRef(x.Base)
+	case ElemOf:
+		return x.Arr
+	}
+	return ""
+}
+
 func (fr *FuncRun) store(st *State, a Addr, t types.Type, v Val) {
 	w := fr.w
-	saved := fr.curWriteFresh
+	saved, savedRoot := fr.curWriteFresh, fr.curWriteRoot
 	fr.curWriteFresh = saved || rootFresh(a)
-	defer func() { fr.curWriteFresh = saved }()
+	if r := rootRef(a); r != "" {
+		fr.curWriteRoot = r
+	}
+	defer func() { fr.curWriteFresh, fr.curWriteRoot = saved, savedRoot }()
 	switch x := a.(type) {
 	case CellAddr:
 		st.cells[x.Key] = v
